@@ -115,7 +115,7 @@ pub fn e2e(args: &[String]) {
     let def = simple_manifest_json("c14", "image/jpeg");
     // measure C: sign with reserve R0, find the pad length in the COSE unprotected header
     let r0 = 20000usize;
-    let s0 = WrapSigner { inner: signer(&alg), reserve: Some(r0) };
+    let s0 = WrapSigner { inner: signer(&alg), reserve: Some(r0), tsa: None };
     let signed = sign_with(ctx(&Value::Null), &def, "image/jpeg", &src, &s0).expect("baseline sign");
     let store_bytes = c2pa::jumbf_io::load_jumbf_from_memory("image/jpeg", &signed).expect("load");
     let (store, _) = c2pa::verif_hooks::store_from_jumbf(&store_bytes, &ctx(&Value::Null)).expect("store");
@@ -139,7 +139,7 @@ pub fn e2e(args: &[String]) {
         for g in v["gaps"].as_array().unwrap() {
             let gap = g.as_i64().unwrap();
             let reserve = (c as i64 + gap) as usize;
-            let s = WrapSigner { inner: signer(&alg), reserve: Some(reserve) };
+            let s = WrapSigner { inner: signer(&alg), reserve: Some(reserve), tsa: None };
             let r = catch(std::panic::AssertUnwindSafe(|| sign_with(ctx(&Value::Null), &def, "image/jpeg", &src, &s)));
             obs.push(match r {
                 Ok(Ok(bytes)) => {
